@@ -25,6 +25,8 @@ NOTES = {
  "C20-seed3": "missed by C20 as it stood (exit 0: every sheet was only filled, never had a cell removed) but caught by C10 (by-column index); C20 catches it since the written-then-removed histories were added",
  "C15-seed3": "caught by C15 as it stood (salt freshness across the whole run: call n repeats the salt of call n-16)",
  "C14-seed3": "caught by C14 as it stood (freshness of salts / keys across the run)",
+ "C18-seed3": "a race between two threads inside a newly introduced, unhooked RwLock-protected memo: outside what the exhaustive engines can own (no scheduling point). Missed by C18 as it stood; reported since the SUPPLEMENTARY free-running pass `display~par` (4 cases at the same time; sampled interleavings, absolute oracle) was added - a detection by sampling, stated as such",
+ "C11-seed3": "caught by C11 as it stood (the explorer clones the workbook per node, and clones share the loaded string table); C11 now also has the explicit operation `fork`; C12 missed it (its histories materialise sheets one by one, never through read_sheet_collection)",
  "C09-seed2": "caught by C09 as it stood (translate clause: a reference leaving the grid followed by another reference) and by C03 (shared-edge family)",
 
  "C11-seed1": "missed by the check as it stood when the seed arrived (exit 0: no operation of the alphabet made a materialised sheet need a NEW numbered dependent part); caught after the edit operation also adds a comment (clause saved-content-equals-eager, the unloaded sheet's comments are replaced)",
